@@ -172,6 +172,13 @@ Ltac open_call c s :=
   cbv [call_body cam_open cam_load cam_start cam_stop cam_close cam_params params_ctxt
        bindM get need ret fail panic do_op emit ctxt_loaded].
 
+Ltac open_state s :=
+  unfold run_call;
+  destruct s as [oc os cx en tl aq lr];
+  try (destruct cx as [[nt ns np ct cs cp]|]);
+  cbv [call_body cam_open cam_load cam_start cam_stop cam_close cam_params params_ctxt
+       bindM get need ret fail panic do_op emit ctxt_loaded].
+
 Ltac crunch := repeat mstep; cbn -[Z.eqb Z.b2z].
 
 (* A: the resulting state is the replay of the call's effects *)
@@ -403,8 +410,223 @@ Lemma start_err_no_loop fx cap pl s :
   (In LoopStart (r_effs r) -> r_res r = Ok (-1)) /\
   (r_res r <> Ok (-1) -> loop_running (r_cam r) = loop_running s).
 Proof.
-  cbv zeta. revert s. intros s. generalize (CStart cap) (eq_refl (CStart cap)).
-  intros c Ec. open_call c s; try discriminate Ec; crunch;
-    (split; [intros Hin; cbn in Hin; try reflexivity; repeat (destruct Hin as [Hin|Hin]; try discriminate Hin); try contradiction
+  cbv zeta. open_state s; crunch;
+    (split; [intros Hin; cbn in Hin; try reflexivity;
+             repeat (destruct Hin as [Hin|Hin]; try discriminate Hin); try contradiction
             |intros Hne; try reflexivity; try (exfalso; apply Hne; reflexivity)]).
 Qed.
+
+(* ---- C16_close_clean -------------------------------------------------- *)
+Definition G (s : cam) : Prop :=
+  (forall c, ctxt s = Some c -> n_tl c = true /\ n_start c = true /\ n_stop c = true) /\
+  (loop_running s = false ->
+   stream_enabled s = false /\ tl_locked s = false /\ acquiring s = false) /\
+  (loop_running s = true -> ctxt_loaded s = true).
+
+Ltac fin :=
+  cbn in *; repeat split; intros; subst;
+  repeat match goal with
+         | H : Some _ = Some _ |- _ => injection H as <-
+         end;
+  cbn in *; intuition (subst; try congruence).
+
+Ltac useG1 G1 :=
+  try (let K := fresh "K" in
+       pose proof (G1 _ eq_refl) as K; cbn [n_tl n_start n_stop] in K;
+       destruct K as (-> & -> & ->)).
+
+Lemma call_G c plc s :
+  G s -> good_call c -> (forall j, plc j = false) -> G (r_cam (run_call true c plc s)).
+Proof.
+  unfold G. open_call c s;
+    cbn [ctxt loop_running stream_enabled tl_locked acquiring good_call x_parses x_tl x_start x_stop];
+    intros (G1 & G2 & G3) Hg Hpl;
+    useG1 G1; crunch; fin.
+Qed.
+
+Lemma close_G plc s :
+  G s -> (forall j, plc j = false) ->
+  r_res (run_call true CClose plc s) = Ok (-1) /\ clean (r_cam (run_call true CClose plc s)).
+Proof.
+  unfold G, clean. open_state s;
+    cbn [ctxt loop_running stream_enabled tl_locked acquiring];
+    intros (G1 & G2 & G3) Hpl;
+    useG1 G1; crunch; fin.
+Qed.
+
+Lemma run_G pl cs : forall i s,
+  (forall i j, pl i j = false) -> G s -> Forall good_call cs ->
+  G (final_from s (run_from true pl i s cs)).
+Proof.
+  induction cs as [|c cs IH]; intros i s Hpl Hs Hg; cbn [run_from].
+  - exact Hs.
+  - rewrite final_from_cons. inversion Hg; subst. apply IH; [exact Hpl| |assumption].
+    apply call_G; [exact Hs|assumption|apply Hpl].
+Qed.
+
+Lemma G0 : G cam0.
+Proof. unfold G. cbn. repeat split; intros; discriminate. Qed.
+
+Lemma run_snoc fx pl cs c :
+  run fx pl (cs ++ [c]) =
+  run fx pl cs ++ [run_call fx c (pl (length cs)) (final (run fx pl cs))].
+Proof.
+  unfold run, final. rewrite run_from_app. cbn [run_from]. rewrite Nat.add_0_r. reflexivity.
+Qed.
+
+Lemma final_snoc rs r : final (rs ++ [r]) = r_cam r.
+Proof. unfold final, final_from. rewrite map_app. cbn [map]. apply last_last. Qed.
+
+Theorem close_clean pl cs :
+  (forall i j, pl i j = false) -> Forall good_call cs ->
+  clean (final (run true pl (cs ++ [CClose]))) /\
+  exists rs r, run true pl (cs ++ [CClose]) = rs ++ [r] /\ r_res r = Ok (-1).
+Proof.
+  intros Hpl Hg. rewrite run_snoc, final_snoc.
+  pose proof (run_G pl cs 0%nat cam0 Hpl G0 Hg) as HG. fold (run true pl cs) in HG.
+  destruct (close_G (pl (length cs)) _ HG (Hpl _)) as [Hr Hc].
+  split; [exact Hc|]. eexists _, _. split; [reflexivity|exact Hr].
+Qed.
+
+(* pinned code: open, start_streaming without a loaded context, close — nothing failed, and the
+   stream stays enabled on the device after close *)
+Theorem close_clean_v0_refuted :
+  exists cs, Forall good_call cs /\
+    stream_enabled (final (run false no_failure (cs ++ [CClose]))) = true /\
+    ~ clean (final (run false no_failure (cs ++ [CClose]))).
+Proof.
+  exists [COpen; CStart 3]. split.
+  - repeat constructor. discriminate.
+  - split; [reflexivity|]. intros (_ & _ & H & _). discriminate H.
+Qed.
+
+(* a description lacking AcquisitionStop: outside the property (the description is assumed to
+   define the three nodes); recorded to show the hypothesis of close_clean is needed *)
+Lemma close_needs_nodes :
+  let x := {| x_parses := true; x_tl := true; x_start := true; x_stop := false |} in
+  ~ clean (final (run true no_failure ([COpen; CLoad x; CStart 3] ++ [CClose]))).
+Proof. cbv zeta. intros (_ & H & _). vm_compute in H. discriminate H. Qed.
+
+(* ---- C16_failure_stops ------------------------------------------------ *)
+Ltac mstep0 :=
+  cbn -[Z.eqb Z.b2z firstn nth_error Nat.lt lt];
+  match goal with
+  | |- context [negb ?b] => is_var b; destruct b
+  | |- context [?b || _] => is_var b; destruct b
+  | |- context [if ?b then _ else _] => is_var b; destruct b
+  | |- context [match ?o with Some _ => _ | None => _ end] => is_var o; destruct o
+  | |- context [?z =? 0] => destruct (Z.eqb_spec z 0)
+  end.
+
+Ltac fstep Hj Hlt :=
+  cbn -[Z.eqb Z.b2z firstn nth_error];
+  match goal with
+  | |- context [if ?pl ?k then _ else _] => first [rewrite Hj | rewrite (Hlt k) by lia]
+  end.
+
+Lemma failure_stops fx c plc s j :
+  first_fail plc j ->
+  (j < r_nops (run_call fx c (fun _ => false) s))%nat ->
+  exists e, nth_error (r_effs (run_call fx c (fun _ => false) s)) j = Some e /\
+    r_failed (run_call fx c plc s) = Some e /\
+    r_res (run_call fx c plc s) = Err (err_of e) /\
+    r_effs (run_call fx c plc s) = firstn j (r_effs (run_call fx c (fun _ => false) s)) /\
+    r_nops (run_call fx c plc s) = S j.
+Proof.
+  intros [Hj Hlt]. open_call c s; repeat mstep0;
+    cbn -[Z.eqb Z.b2z firstn nth_error Nat.lt lt]; intros Hn;
+    destruct j as [|[|[|[|[|[|j]]]]]]; try (exfalso; lia);
+    repeat fstep Hj Hlt; cbn; eexists; repeat split; reflexivity.
+Qed.
+
+(* a planned failure at an operation the call does not reach changes nothing *)
+Lemma unreached_failure fx c plc s :
+  (forall k, (k < r_nops (run_call fx c (fun _ => false) s))%nat -> plc k = false) ->
+  run_call fx c plc s = run_call fx c (fun _ => false) s.
+Proof.
+  open_call c s; repeat mstep0; cbn -[Z.eqb Z.b2z Nat.lt lt]; intros H;
+    repeat (rewrite H by lia; cbn -[Z.eqb Z.b2z]); reflexivity.
+Qed.
+
+(* whatever the plan: a call in which an operation failed returns that operation's error, and
+   the failed operation is the last one attempted *)
+Lemma failed_res fx c plc s e :
+  r_failed (run_call fx c plc s) = Some e ->
+  r_res (run_call fx c plc s) = Err (err_of e) /\
+  exists j, plc j = true /\ r_nops (run_call fx c plc s) = S j.
+Proof.
+  open_call c s; crunch; intros Hf; try discriminate Hf; injection Hf as <-;
+    (split; [reflexivity|eexists; split; [eassumption|reflexivity]]).
+Qed.
+
+(* the only panic: start_streaming(0), as documented *)
+Lemma panic_only fx c plc s :
+  r_res (run_call fx c plc s) = Panic -> c = CStart 0.
+Proof.
+  open_call c s; crunch; intros H; try discriminate H; subst; reflexivity.
+Qed.
+
+Lemma start_cap0 fx plc s c0 :
+  loop_running s = false -> ctxt s = Some c0 -> n_tl c0 = true -> n_start c0 = true ->
+  (forall j, plc j = false) ->
+  r_res (run_call fx (CStart 0) plc s) = Panic /\
+  r_effs (run_call fx (CStart 0) plc s) = [EnableStreaming; SetTLParamsLocked true; AcqStart] /\
+  loop_running (r_cam (run_call fx (CStart 0) plc s)) = false.
+Proof.
+  destruct s as [oc os cx en tl aq lr]. destruct c0 as [nt ns np ct cs cp].
+  cbn [loop_running ctxt n_tl n_start]. intros -> -> -> -> H.
+  unfold run_call.
+  cbv [call_body cam_start params_ctxt bindM get need ret fail panic do_op emit ctxt_loaded].
+  crunch; try congruence; repeat split.
+Qed.
+
+(* every call result of a session is a run_call from some state *)
+Lemma run_in fx pl cs : forall i s r,
+  In r (run_from fx pl i s cs) -> exists c k s', r = run_call fx c (pl k) s'.
+Proof.
+  induction cs as [|c cs IH]; intros i s r H; cbn [run_from] in H.
+  - destruct H.
+  - destruct H as [<-|H]; [eexists _, _, _; reflexivity|]. eapply IH. exact H.
+Qed.
+
+Theorem failure_session fx pl cs r e :
+  In r (run fx pl cs) -> r_failed r = Some e ->
+  r_res r = Err (err_of e) /\ exists k j, pl k j = true /\ r_nops r = S j.
+Proof.
+  intros Hin Hf. destruct (run_in _ _ _ _ _ _ Hin) as (c & k & s' & ->).
+  destruct (failed_res _ _ _ _ _ Hf) as [Hr (j & Hj & Hn)].
+  split; [exact Hr|]. exists k, j. split; assumption.
+Qed.
+
+Theorem panic_session fx pl cs r :
+  In r (run fx pl cs) -> r_res r = Panic -> In (CStart 0) cs.
+Proof.
+  unfold run. generalize 0%nat cam0. induction cs as [|c cs IH]; intros i s H Hp; cbn [run_from] in H.
+  - destruct H.
+  - destruct H as [<-|H].
+    + apply panic_only in Hp. subst c. left. reflexivity.
+    + right. eapply IH; eassumption.
+Qed.
+
+(* non-vacuity: the intended session, its trace and its final state *)
+Definition xml_good : xmlv := {| x_parses := true; x_tl := true; x_start := true; x_stop := true |}.
+
+Example session_example :
+  let rs := run true no_failure [COpen; CLoad xml_good; CStart 3; CParams; CStop; CClose] in
+  trace_of rs =
+    [CtrlOpen; StrmOpen; GenApiFetch; LoadCtxt true true true;
+     EnableStreaming; SetTLParamsLocked true; AcqStart; LoopStart;
+     LoopStop; AcqStop; SetTLParamsLocked false; DisableStreaming;
+     CtrlClose; StrmClose; ClearCache] /\
+  map r_res rs = [Ok (-1); Ok (-1); Ok (-1); Ok 1; Ok (-1); Ok (-1)] /\
+  clean (final rs).
+Proof. vm_compute. repeat split. Qed.
+
+(* a failing AcquisitionStart write: error returned, the loop is not started, the flag is false *)
+Example failure_example :
+  let rs := run true (plan_of [(2, 2)%nat]) [COpen; CLoad xml_good; CStart 3] in
+  map r_res rs = [Ok (-1); Ok (-1); Err E_GENAPI_DEVICE] /\
+  trace_of rs = [CtrlOpen; StrmOpen; GenApiFetch; LoadCtxt true true true;
+                 EnableStreaming; SetTLParamsLocked true] /\
+  loop_running (final rs) = false.
+Proof. vm_compute. repeat split. Qed.
